@@ -151,8 +151,8 @@ Record out := {
   o_cache : cache;
 }.
 
-(* StructOf/ArrayOf/TupleOf.export_value: check_type WITHOUT allow_optional (every member must be present), then the
-   members element-wise; leaves always export.  validate() accepts a nested struct that lacks optional members. *)
+(* StructOf/ArrayOf/TupleOf.export_value: check_type(value, True) -- since fix 45926fd optional members may be absent,
+   mandatory ones must be present, unknown keys are refused -- then the members element-wise; leaves always export. *)
 Fixpoint exportable (d : dtype) (v : pyval) {struct d} : bool :=
   match d with
   | TArray elem _ _ =>
@@ -164,10 +164,10 @@ Fixpoint exportable (d : dtype) (v : pyval) {struct d} : bool :=
              match ds, l with d1 :: ds', x :: r => exportable d1 x && go ds' r | _, _ => true end) elems l
       | _ => true
       end
-  | TStruct members _ _ =>
+  | TStruct members optional _ =>
       match v with
       | PDict kv =>
-          forallb (fun m : str * dtype => mem_str (fst m) (map fst kv)) members &&
+          forallb (fun m : str * dtype => mem_str (fst m) optional || mem_str (fst m) (map fst kv)) members &&
           forallb (fun p : str * pyval =>
                      (fix find (ms : list (str * dtype)) : bool :=
                         match ms with
